@@ -37,7 +37,8 @@ pub struct Case {
     pub both: bool,
 }
 
-const ENTRIES: [(&str, bool); 4] = [("/f0", false), ("/d0/f1", false), ("/d0", true), ("/d0/d1", true)];
+/// (the last one is the filesystem's own root directory)
+const ENTRIES: [(&str, bool); 5] = [("/f0", false), ("/d0/f1", false), ("/d0", true), ("/d0/d1", true), ("", true)];
 
 /// candidate seconds (relative to the epoch); filtered at start-up to what the scratch
 /// filesystem round-trips natively
@@ -134,6 +135,7 @@ fn test(case: &Case, st: &mut Stats, counting: bool) -> CaseResult {
     let mut trace: Vec<String> = vec![];
     let mut facts = (0usize, 0usize, false, 0usize, 0usize, 0usize); // sets ok, not-supported, subsec, fields-with-session-between cases, lower-only observations
     let mut idle_total = 0usize;
+    let mut extreme_total = 0usize;
     let mut reader_total = 0usize;
     let r = guarded(|| -> Result<(), (usize, String)> {
         let e0 = |m: String| (0usize, m);
@@ -178,9 +180,15 @@ fn test(case: &Case, st: &mut Stats, counting: bool) -> CaseResult {
                         1 => TimeField::Modified,
                         _ => TimeField::Accessed,
                     };
-                    let (secs, mut nanos) = times[idx(*t, times.len())];
+                    let (mut secs, mut nanos) = times[idx(*t, times.len())];
                     if t % 5 == 0 && secs > 0 && secs < 4_000_000_000 {
                         nanos = jn % 1_000_000_000;
+                    }
+                    // the in-memory backend stores a SystemTime as it is: also the ends of the range
+                    if base == "mem" && t % 13 == 6 {
+                        secs = [i64::MAX, i64::MAX - 1, i64::MIN + 1, 253_402_300_800][(*jn % 4) as usize];
+                        nanos = [0, 999_999_999][(*jn / 4 % 2) as usize];
+                        extreme_total += 1;
                     }
                     let when = time_of(secs, nanos);
                     let p = at(&root, path).map_err(|e| (step, e.to_string()))?;
@@ -411,6 +419,7 @@ fn test(case: &Case, st: &mut Stats, counting: bool) -> CaseResult {
                 st.label_n("lower_only_setters_checked", facts.4 as u64);
                 st.label_n("setters_during_open_handle_verified", facts.5 as u64);
                 st.label_n("failing_or_idle_calls_verified", idle_total as u64);
+                st.label_n("setters_with_range_end_values(memory)", extreme_total as u64);
                 st.label_n("write_sessions_with_live_reader", reader_total as u64);
                 if case.both && case.cfg.overlay_layers() >= 2 {
                     st.label("directories_present_in_upper_and_lowest_layer");
@@ -460,7 +469,7 @@ pub fn replay(v: &Value) -> CaseResult {
     test(&case, &mut st, false)
 }
 
-const RULE: &str = "time values from {epoch, +-1s, +-1e9, +-2e9, 2^31 boundary, 4e9, 1e10, 1.5e10 s} x {0,1,999999999,5e8,123456789,1000 ns} plus random sub-second parts, filtered at start-up by RAW OS calls to what the scratch filesystem round-trips exactly; the three setters in random order and repetition on two files and two directories, interleaved with create and append sessions (a quarter of them while a read handle on the same file is alive) and with calls on the entry that fail by contract or have nothing to do (create_dir / create_file / append_file on an existing directory, create_dir_all on it, create_dir / read_dir / remove_dir on a file): those must leave all three timestamps, length and type untouched; stacks Mem/Phys/altroot/overlay (entry in the upper layer; in half of the overlay cases the directories also exist in the lowest layer and /f0 exists there with other bytes) incl. nesting; oracle: metadata immediately before/after each setter: Ok => set field exact, the two other timestamps, length and type unchanged, bytes unchanged; unsupported (creation time over PhysicalFS) => NotSupported and metadata unchanged; supported setters must succeed; MemoryFS append keeps created; altroot/overlay report the timestamps of the served entry; non-trivial = >=2 different fields set on one entry with a write/append session between, and a value with a non-zero sub-second part";
+const RULE: &str = "time values from {epoch, +-1s, +-1e9, +-2e9, 2^31 boundary, 4e9, 1e10, 1.5e10 s} x {0,1,999999999,5e8,123456789,1000 ns} plus random sub-second parts, filtered at start-up by RAW OS calls to what the scratch filesystem round-trips exactly; the three setters in random order and repetition on two files, two directories and the filesystem's root directory (memory-backed stacks also get the ends of the SystemTime range), interleaved with create and append sessions (a quarter of them while a read handle on the same file is alive) and with calls on the entry that fail by contract or have nothing to do (create_dir / create_file / append_file on an existing directory, create_dir_all on it, create_dir / read_dir / remove_dir on a file): those must leave all three timestamps, length and type untouched; stacks Mem/Phys/altroot/overlay (entry in the upper layer; in half of the overlay cases the directories also exist in the lowest layer and /f0 exists there with other bytes) incl. nesting; oracle: metadata immediately before/after each setter: Ok => set field exact, the two other timestamps, length and type unchanged, bytes unchanged; unsupported (creation time over PhysicalFS) => NotSupported and metadata unchanged; supported setters must succeed; MemoryFS append keeps created; altroot/overlay report the timestamps of the served entry; non-trivial = >=2 different fields set on one entry with a write/append session between, and a value with a non-zero sub-second part";
 
 pub fn run(ctx: &RunCtx) -> i32 {
     let usable = usable_times().len();
